@@ -8,6 +8,7 @@ package simio
 
 import (
 	"errors"
+	"fmt"
 	"io"
 )
 
@@ -23,6 +24,8 @@ type Device struct {
 	Failed   bool // the failure has fired at least once
 	Writes   int
 	FailHits int
+	// FailErr is the error a failing device returns (nil = ErrInjected).
+	FailErr error
 	// WriteSizes logs the size of each Write call (flush boundaries = possible crash cuts).
 	WriteEnds []int
 }
@@ -44,6 +47,9 @@ func (d *Device) Write(p []byte) (int, error) {
 		}
 		d.Failed = true
 		d.FailHits++
+		if d.FailErr != nil {
+			return n, d.FailErr
+		}
 		return n, ErrInjected
 	}
 	d.Buf = append(d.Buf, p...)
@@ -65,10 +71,13 @@ type Source struct {
 	EOFWithData bool
 	Failed      bool
 	FailHits    int
-	Reads       int
-	ShortReads  int
-	ZeroReads   int
-	EOFs        int
+	// FailErr is the error a failing source returns (nil = ErrInjected). An error that merely WRAPS io.EOF or
+	// io.ErrUnexpectedEOF is still an I/O error: a reader signals the end of its data with io.EOF itself.
+	FailErr    error
+	Reads      int
+	ShortReads int
+	ZeroReads  int
+	EOFs       int
 }
 
 // NewSource returns a well-behaved source over data.
@@ -79,7 +88,7 @@ func (s *Source) Read(p []byte) (int, error) {
 	if s.FailAt >= 0 && s.Pos >= s.FailAt {
 		s.Failed = true
 		s.FailHits++
-		return 0, ErrInjected
+		return 0, s.failErr()
 	}
 	if len(p) == 0 {
 		return 0, nil
@@ -122,7 +131,20 @@ func (s *Source) Read(p []byte) (int, error) {
 		// limit reached exactly: the next call fails
 		s.Failed = true
 		s.FailHits++
-		return 0, ErrInjected
+		return 0, s.failErr()
 	}
 	return n, nil
 }
+
+func (s *Source) failErr() error {
+	if s.FailErr != nil {
+		return s.FailErr
+	}
+	return ErrInjected
+}
+
+// Injected error values that wrap the end-of-data sentinels without being them.
+var (
+	ErrInjectedWrapsEOF           = fmt.Errorf("simio: connection reset (%w)", io.EOF)
+	ErrInjectedWrapsUnexpectedEOF = fmt.Errorf("simio: transport closed (%w)", io.ErrUnexpectedEOF)
+)
